@@ -220,6 +220,13 @@ func (g Gateway) Set(ctx context.Context, in *hydrapb.SetRequest) (*hydrapb.SetR
 			// return with grpc error message
 			return nil, status.Error(codes.InvalidArgument, fmt.Sprintf("KeyValues cannot be empty for the swamp: %s", swampRequest.GetSwampName()))
 		}
+		for _, item := range swampRequest.GetKeyValues() {
+			// a treasure with an empty key can be written to the swamp file but not read back:
+			// the whole swamp would fail to load the next time it is opened
+			if item.GetKey() == "" {
+				return nil, status.Error(codes.InvalidArgument, fmt.Sprintf("Key cannot be empty for the swamp: %s", swampRequest.GetSwampName()))
+			}
+		}
 	}
 
 	// try to summon the swamp
@@ -1860,6 +1867,13 @@ func (g Gateway) Uint32SlicePush(ctx context.Context, in *hydrapb.AddToUint32Sli
 		return nil, err
 	}
 
+	for _, pair := range in.KeySlicePairs {
+		// see Set: a treasure with an empty key makes the swamp file unreadable
+		if pair.GetKey() == "" {
+			return nil, status.Error(codes.InvalidArgument, "Key cannot be empty")
+		}
+	}
+
 	// get the hydra interface
 	hydraInterface := g.ZeusInterface.GetHydra()
 
@@ -2088,6 +2102,10 @@ func (g Gateway) IncrementInt8(ctx context.Context, in *hydrapb.IncrementInt8Req
 		// return with grpc error message
 		return nil, status.Error(codes.InvalidArgument, "IncrementBy cannot be zero")
 	}
+	if in.Key == "" {
+		// see Set: a treasure with an empty key makes the swamp file unreadable
+		return nil, status.Error(codes.InvalidArgument, "Key cannot be empty")
+	}
 
 	// check the name of the swamp
 	swampName, err := checkSwampName(g.ZeusInterface, in.GetIslandID(), in.SwampName, false)
@@ -2151,6 +2169,10 @@ func (g Gateway) IncrementInt16(ctx context.Context, in *hydrapb.IncrementInt16R
 		// return with grpc error message
 		return nil, status.Error(codes.InvalidArgument, "IncrementBy cannot be zero")
 	}
+	if in.Key == "" {
+		// see Set: a treasure with an empty key makes the swamp file unreadable
+		return nil, status.Error(codes.InvalidArgument, "Key cannot be empty")
+	}
 
 	// check the name of the swamp
 	swampName, err := checkSwampName(g.ZeusInterface, in.GetIslandID(), in.SwampName, false)
@@ -2212,6 +2234,10 @@ func (g Gateway) IncrementInt32(ctx context.Context, in *hydrapb.IncrementInt32R
 	if in.IncrementBy == 0 {
 		// return with grpc error message
 		return nil, status.Error(codes.InvalidArgument, "IncrementBy cannot be zero")
+	}
+	if in.Key == "" {
+		// see Set: a treasure with an empty key makes the swamp file unreadable
+		return nil, status.Error(codes.InvalidArgument, "Key cannot be empty")
 	}
 
 	// check the name of the swamp
@@ -2275,6 +2301,10 @@ func (g Gateway) IncrementInt64(ctx context.Context, in *hydrapb.IncrementInt64R
 		// return with grpc error message
 		return nil, status.Error(codes.InvalidArgument, "IncrementBy cannot be zero")
 	}
+	if in.Key == "" {
+		// see Set: a treasure with an empty key makes the swamp file unreadable
+		return nil, status.Error(codes.InvalidArgument, "Key cannot be empty")
+	}
 
 	// check the name of the swamp
 	swampName, err := checkSwampName(g.ZeusInterface, in.GetIslandID(), in.SwampName, false)
@@ -2336,6 +2366,10 @@ func (g Gateway) IncrementUint8(ctx context.Context, in *hydrapb.IncrementUint8R
 	if in.IncrementBy == 0 {
 		// return with grpc error message
 		return nil, status.Error(codes.InvalidArgument, "IncrementBy cannot be zero")
+	}
+	if in.Key == "" {
+		// see Set: a treasure with an empty key makes the swamp file unreadable
+		return nil, status.Error(codes.InvalidArgument, "Key cannot be empty")
 	}
 
 	// check the name of the swamp
@@ -2399,6 +2433,10 @@ func (g Gateway) IncrementUint16(ctx context.Context, in *hydrapb.IncrementUint1
 		// return with grpc error message
 		return nil, status.Error(codes.InvalidArgument, "IncrementBy cannot be zero")
 	}
+	if in.Key == "" {
+		// see Set: a treasure with an empty key makes the swamp file unreadable
+		return nil, status.Error(codes.InvalidArgument, "Key cannot be empty")
+	}
 
 	// check the name of the swamp
 	swampName, err := checkSwampName(g.ZeusInterface, in.GetIslandID(), in.SwampName, false)
@@ -2460,6 +2498,10 @@ func (g Gateway) IncrementUint32(ctx context.Context, in *hydrapb.IncrementUint3
 	if in.IncrementBy == 0 {
 		// return with grpc error message
 		return nil, status.Error(codes.InvalidArgument, "IncrementBy cannot be zero")
+	}
+	if in.Key == "" {
+		// see Set: a treasure with an empty key makes the swamp file unreadable
+		return nil, status.Error(codes.InvalidArgument, "Key cannot be empty")
 	}
 
 	// check the name of the swamp
@@ -2523,6 +2565,10 @@ func (g Gateway) IncrementUint64(ctx context.Context, in *hydrapb.IncrementUint6
 		// return with grpc error message
 		return nil, status.Error(codes.InvalidArgument, "IncrementBy cannot be zero")
 	}
+	if in.Key == "" {
+		// see Set: a treasure with an empty key makes the swamp file unreadable
+		return nil, status.Error(codes.InvalidArgument, "Key cannot be empty")
+	}
 
 	// check the name of the swamp
 	swampName, err := checkSwampName(g.ZeusInterface, in.GetIslandID(), in.SwampName, false)
@@ -2584,6 +2630,10 @@ func (g Gateway) IncrementFloat32(ctx context.Context, in *hydrapb.IncrementFloa
 	if in.IncrementBy == 0 {
 		// return with grpc error message
 		return nil, status.Error(codes.InvalidArgument, "IncrementBy cannot be zero")
+	}
+	if in.Key == "" {
+		// see Set: a treasure with an empty key makes the swamp file unreadable
+		return nil, status.Error(codes.InvalidArgument, "Key cannot be empty")
 	}
 
 	// check the name of the swamp
@@ -2647,6 +2697,10 @@ func (g Gateway) IncrementFloat64(ctx context.Context, in *hydrapb.IncrementFloa
 	if in.IncrementBy == 0 {
 		// return with grpc error message
 		return nil, status.Error(codes.InvalidArgument, "IncrementBy cannot be zero")
+	}
+	if in.Key == "" {
+		// see Set: a treasure with an empty key makes the swamp file unreadable
+		return nil, status.Error(codes.InvalidArgument, "Key cannot be empty")
 	}
 
 	// check the name of the swamp
